@@ -300,6 +300,14 @@ impl Counts {
                 // Decrement the number of active streams.
                 self.dec_num_streams(&mut stream);
             }
+
+            #[cfg(feature = "verif")]
+            if stream.state.is_scheduled_reset() && stream.is_counted && !stream.is_pending_send {
+                crate::verif::event(crate::verif::Ev::Note {
+                    site: "closed-counted-scheduled-reset-not-queued",
+                    id: stream.id.into(),
+                });
+            }
         }
 
         // Release the stream if it requires releasing
